@@ -8,7 +8,8 @@ Numeric policy (DESIGN 2.4): |a-b| <= tol * (1 + scale), scale = largest magnitu
 tol = 1e-9, or 1e-7 for outputs that contain a linear solve.  NaN/Inf on either side is a disagreement."""
 import sys, math, json
 
-SOLVE_LABELS = {"qdd", "lambda", "qdplus", "impulse", "tauc", "force", "ltlsolve", "fdc_motion", "fdc_constraint_acc", "imp_feasible", "imp_momentum", "imp_energy", "idc_motion", "idc_constraint_acc", "idc_unactuated_tau", "idc_actuated_acc", "asmqd", "asmqd_feasible", "asmqd_closest", "ikq", "ikerr", "asmq"}
+SOLVE_LABELS = {"qdd", "lambda", "qdplus", "impulse", "tauc", "force", "ltlsolve", "fdc_motion", "fdc_constraint_acc", "imp_feasible", "imp_momentum", "imp_energy", "idc_motion", "idc_constraint_acc", "idc_unactuated_tau", "idc_actuated_acc", "asmqd", "asmqd_feasible", "asmqd_closest", "ikq", "ikerr", "asmq",
+                "fpe_w0C0", "fpe_w0P0", "fpe_proj", "fpe_phi", "fpe_r0F0", "fpe_n", "fpe_u", "fpe_avg_angvel_com", "fpe_avg_angvel_proj", "fpe_point_offset"}
 
 def parse(path):
     """-> {case: {(tag, seq, label): [tokens]}}, order list"""
